@@ -1371,13 +1371,38 @@ def unroll_literal_loops(tree: ast.Module, unchanged: T.Optional[T.Set[int]] = N
     import copy
     count = 0
 
-    def subst(stmts: T.List[ast.stmt], name: str, const: ast.Constant) -> T.List[ast.stmt]:
+    def subst(stmts: T.List[ast.stmt], name: T.Any, const: T.Any) -> T.List[ast.stmt]:
+        table = {name: const} if isinstance(name, str) else dict(zip(name, const.elts))
+
         class Sub(ast.NodeTransformer):
             def visit_Name(self, node: ast.Name) -> ast.AST:
-                if node.id == name and isinstance(node.ctx, ast.Load):
-                    return ast.copy_location(ast.Constant(value=const.value), node)
+                if node.id in table and isinstance(node.ctx, ast.Load):
+                    return ast.copy_location(ast.Constant(value=table[node.id].value), node)
                 return node
         return [ast.fix_missing_locations(Sub().visit(copy.deepcopy(st))) for st in stmts]
+
+    # module-level single-assignment tables of constants (or of tuples of constants): `for a, b in _TABLE:` unrolls like a literal
+    mod_tables: T.Dict[str, ast.AST] = {}
+    n_assigned: T.Dict[str, int] = {}
+    for st_ in tree.body:
+        tg_ = st_.targets[0] if isinstance(st_, ast.Assign) and len(st_.targets) == 1 else (st_.target if isinstance(st_, ast.AnnAssign) and st_.value is not None else None)
+        if isinstance(tg_, ast.Name):
+            n_assigned[tg_.id] = n_assigned.get(tg_.id, 0) + 1
+            if isinstance(st_.value, (ast.Tuple, ast.List)):
+                mod_tables[tg_.id] = st_.value
+    mod_tables = {k: v for k, v in mod_tables.items() if n_assigned.get(k) == 1}
+
+    def literal_of(it: ast.AST) -> T.Optional[ast.AST]:
+        if isinstance(it, ast.Name) and it.id in mod_tables:
+            return mod_tables[it.id]
+        return it if isinstance(it, (ast.Tuple, ast.List)) else None
+
+    def elements_fit(target: ast.AST, lit: ast.AST) -> bool:
+        if isinstance(target, ast.Name):
+            return all(isinstance(e, ast.Constant) for e in lit.elts)
+        if isinstance(target, ast.Tuple) and all(isinstance(t_, ast.Name) for t_ in target.elts):
+            return all(isinstance(e, ast.Tuple) and len(e.elts) == len(target.elts) and all(isinstance(x, ast.Constant) for x in e.elts) for e in lit.elts)
+        return False
 
     def own_jumps(stmts: T.List[ast.stmt]) -> bool:
         stack = list(stmts)
@@ -1401,11 +1426,14 @@ def unroll_literal_loops(tree: ast.Module, unchanged: T.Optional[T.Set[int]] = N
                     visit_block(sub)
             for h in getattr(st, "handlers", []) or []:
                 visit_block(h.body)
-            if isinstance(st, ast.For) and isinstance(st.target, ast.Name) and isinstance(st.iter, (ast.Tuple, ast.List)) and 1 <= len(st.iter.elts) <= 6 \
-                    and all(isinstance(e, ast.Constant) for e in st.iter.elts) \
-                    and not any(isinstance(x, ast.Name) and x.id == st.target.id and isinstance(x.ctx, ast.Store) for b in st.body for x in ast.walk(b)):
-                name = st.target.id
+            lit = literal_of(st.iter) if isinstance(st, ast.For) else None
+            tnames = ([st.target.id] if isinstance(st.target, ast.Name) else [t_.id for t_ in st.target.elts if isinstance(t_, ast.Name)]) if isinstance(st, ast.For) and isinstance(st.target, (ast.Name, ast.Tuple)) else []
+            if isinstance(st, ast.For) and lit is not None and 1 <= len(lit.elts) <= 6 and elements_fit(st.target, lit) \
+                    and not any(isinstance(x, ast.Name) and x.id in tnames and isinstance(x.ctx, ast.Store) for b in st.body for x in ast.walk(b)):
+                name = st.target.id if isinstance(st.target, ast.Name) else tnames
                 body = st.body
+                st = copy.copy(st)
+                st.iter = lit
                 if len(body) == 1 and isinstance(body[0], ast.If) and not body[0].orelse and body[0].body and isinstance(body[0].body[-1], ast.Break) \
                         and not own_jumps(body[0].body[:-1]):
                     chain: T.List[ast.stmt] = list(st.orelse)
@@ -1431,6 +1459,35 @@ def unroll_literal_loops(tree: ast.Module, unchanged: T.Optional[T.Set[int]] = N
         if unchanged and id(fd) in unchanged:
             continue
         visit_block(fd.body)
+    return count
+
+
+def split_compare_chains(tree: ast.Module, unchanged: T.Optional[T.Set[int]] = None) -> int:
+    """`0 < a == b` in a function that differs from the pinned one becomes `0 < a and a == b`: the shared operand is a name,
+    an attribute of a name or a constant, so evaluating it twice changes nothing."""
+    import copy
+    count = 0
+
+    def pure(e: ast.AST) -> bool:
+        return isinstance(e, (ast.Name, ast.Constant)) or (isinstance(e, ast.Attribute) and pure(e.value))
+
+    class Split(ast.NodeTransformer):
+        def visit_Compare(self, node: ast.Compare) -> ast.AST:
+            nonlocal count
+            self.generic_visit(node)
+            if len(node.ops) < 2 or not all(pure(c) for c in node.comparators[:-1]):
+                return node
+            parts: T.List[ast.expr] = []
+            left = node.left
+            for op, right in zip(node.ops, node.comparators):
+                parts.append(ast.Compare(left=copy.deepcopy(left), ops=[op], comparators=[copy.deepcopy(right)]))
+                left = right
+            count += 1
+            return ast.fix_missing_locations(ast.copy_location(ast.BoolOp(op=ast.And(), values=parts), node))
+    for fd in [n for n in ast.walk(tree) if isinstance(n, (ast.FunctionDef, ast.AsyncFunctionDef))]:
+        if unchanged and id(fd) in unchanged:
+            continue
+        Split().visit(fd)
     return count
 
 
@@ -1478,8 +1535,9 @@ def expand_table_dispatch(tree: ast.Module, unchanged: T.Optional[T.Set[int]] = 
             continue          # a function of the pinned tree, untouched: the rules were confirmed against this very shape
         tables: T.Dict[str, ast.Dict] = {}
         stores: T.Dict[str, int] = {}
+        bare = {id(n.target) for n in ast.walk(fd) if isinstance(n, ast.AnnAssign) and n.value is None}
         for n in ast.walk(fd):
-            if isinstance(n, ast.Name) and isinstance(n.ctx, ast.Store):
+            if isinstance(n, ast.Name) and isinstance(n.ctx, ast.Store) and id(n) not in bare:
                 stores[n.id] = stores.get(n.id, 0) + 1
         for n in ast.walk(fd):
             tg = val = None
@@ -1511,9 +1569,10 @@ def expand_table_dispatch(tree: ast.Module, unchanged: T.Optional[T.Set[int]] = 
                             hit = (names, table, st.value.slice, rest, isinstance(tgt, ast.Tuple))
                 # `impl = A if cond else B` with references A, B, where impl is only called through: the same expansion,
                 # over the shortest run of following statements that holds every use of impl
-                if hit is None and isinstance(st, ast.Assign) and len(st.targets) == 1 and isinstance(st.targets[0], ast.Name) and isinstance(st.value, ast.IfExp) \
-                        and _is_ref(st.value.body) and _is_ref(st.value.orelse) and not isinstance(st.value.body, ast.Tuple) and stores.get(st.targets[0].id) == 1:
-                    nm = st.targets[0].id
+                st_tgt = st.targets[0] if isinstance(st, ast.Assign) and len(st.targets) == 1 else (st.target if isinstance(st, ast.AnnAssign) and st.value is not None else None)
+                if hit is None and isinstance(st_tgt, ast.Name) and isinstance(st.value, ast.IfExp) \
+                        and _is_ref(st.value.body) and _is_ref(st.value.orelse) and not isinstance(st.value.body, ast.Tuple) and stores.get(st_tgt.id) == 1:
+                    nm = st_tgt.id
                     uses = [x for x in ast.walk(fd) if isinstance(x, ast.Name) and x.id == nm and isinstance(x.ctx, ast.Load)]
                     called = [x for x in ast.walk(fd) if (isinstance(x, ast.Call) and ((isinstance(x.func, ast.Name) and x.func.id == nm) or
                               (isinstance(x.func, ast.Attribute) and isinstance(x.func.value, ast.Name) and x.func.value.id == nm)))]
@@ -1550,6 +1609,27 @@ def expand_table_dispatch(tree: ast.Module, unchanged: T.Optional[T.Set[int]] = 
                         tail = stmts[i + 2 + last:]
                         del stmts[i + 2 + last:]
                         hit = ([nm], fake, ast.Call(func=ast.Name(id="bool", ctx=ast.Load()), args=[st.test], keywords=[]), stmts[i + 1:], False)
+                        pending_tail = tail
+                # `if c: ver, rew = A, B` / `else: ver, rew = C, D` followed by calls through ver / rew: the same expansion
+                if hit is None and isinstance(st, ast.If) and len(st.body) == 1 and len(st.orelse) == 1 and all(
+                        isinstance(b_, ast.Assign) and len(b_.targets) == 1 and isinstance(b_.targets[0], ast.Tuple) and isinstance(b_.value, ast.Tuple)
+                        and len(b_.targets[0].elts) == len(b_.value.elts) and all(isinstance(e_, ast.Name) for e_ in b_.targets[0].elts) and all(_is_ref(v_) and not isinstance(v_, ast.Tuple) for v_ in b_.value.elts)
+                        for b_ in (st.body[0], st.orelse[0])) and [e_.id for e_ in st.body[0].targets[0].elts] == [e_.id for e_ in st.orelse[0].targets[0].elts] \
+                        and all(stores.get(e_.id) == 2 for e_ in st.body[0].targets[0].elts):
+                    nms = [e_.id for e_ in st.body[0].targets[0].elts]
+                    uses = [x for x in ast.walk(fd) if isinstance(x, ast.Name) and x.id in nms and isinstance(x.ctx, ast.Load)]
+                    called = [x for x in ast.walk(fd) if (isinstance(x, ast.Call) and ((isinstance(x.func, ast.Name) and x.func.id in nms) or
+                              (isinstance(x.func, ast.Attribute) and isinstance(x.func.value, ast.Name) and x.func.value.id in nms)))]
+                    last = -1
+                    for j, r_ in enumerate(stmts[i + 1:]):
+                        if any(isinstance(x, ast.Name) and x.id in nms for x in ast.walk(r_)):
+                            last = j
+                    in_rest = sum(1 for r_ in stmts[i + 1:i + 2 + last] for x in ast.walk(r_) if isinstance(x, ast.Name) and x.id in nms and isinstance(x.ctx, ast.Load))
+                    if uses and len(called) == len(uses) and last >= 0 and in_rest == len(uses):
+                        fake = ast.Dict(keys=[ast.Constant(value=True), ast.Constant(value=False)], values=[st.body[0].value, st.orelse[0].value])
+                        tail = stmts[i + 2 + last:]
+                        del stmts[i + 2 + last:]
+                        hit = (nms, fake, ast.Call(func=ast.Name(id="bool", ctx=ast.Load()), args=[st.test], keywords=[]), stmts[i + 1:], True)
                         pending_tail = tail
                 if hit is None:
                     for fld in ("body", "orelse", "finalbody"):
@@ -1647,6 +1727,7 @@ def normalise_program(trees: T.Dict[str, ast.Module]) -> T.Dict[str, int]:
     n_splats = 0
     n_boolret = 0
     n_accrep = 0
+    n_chains = 0
     for m, t in trees.items():
         known = baseline().get(m)
         if known:
@@ -1658,11 +1739,13 @@ def normalise_program(trees: T.Dict[str, ast.Module]) -> T.Dict[str, int]:
             n_splats += expand_kwargs_splats(t, same)
             n_boolret += expand_bool_returns(t, same, {id(fd) for q, fd in _qualnames(t).items() if q in known})
             n_accrep += expand_accumulated_replace(t, same)
+            n_chains += split_compare_chains(t, same)
     LAST_RUN["dispatch_expanded"] = n_disp
     LAST_RUN["literal_loops_unrolled"] = n_unrolled
     LAST_RUN["kwargs_splats_expanded"] = n_splats
     LAST_RUN["bool_returns_expanded"] = n_boolret
     LAST_RUN["accumulated_replace_expanded"] = n_accrep
+    LAST_RUN["compare_chains_split"] = n_chains
     inliners: T.Dict[str, Inliner] = {}
     for m, tree in trees.items():
         known = dict(baseline().get(m, {}))
